@@ -369,7 +369,7 @@ func ruleClassBits(c *report.Ctx) {
 				k, isK := constInt(and.Y)
 				switch {
 				case !isK:
-				case g.Op == token.NEQ && z == 0: // flags & mask != 0
+				case g.Op == token.NEQ && z == 0 && k > 0 && k&(k-1) == 0: // flags & bit != 0 (one bit: it is set)
 					m |= k
 				case g.Op == token.EQL && z != 0: // flags & classMask == pattern
 					m |= z & k
